@@ -1,19 +1,44 @@
 #!/bin/bash
-# Apply every seeded change to /repo in turn, run the quick check of its property, restore /repo.
-# Writes /verif/evidence/sensitivity.json. Run from /verif with /repo clean.
+# Apply every seeded change in turn to a scratch worktree of /repo's HEAD, run the quick check of its
+# property there with a private copy of this directory, and collect the results in
+# /verif/evidence/sensitivity.json. LANES (default 4) worktrees work in parallel; everything scratch
+# lives under /tmp/seedlane and is removed at the end. /repo itself is not touched (it must be clean:
+# the worktrees are made from its HEAD).
 cd /verif
-out=/verif/evidence/sensitivity.json
-echo '{"seeded_changes": [' > $out.tmp
-first=1
-for d in seeded/*/; do
-  id=$(basename $d); prop=$(python3 -c "import json;print(json.load(open('$d/meta.json'))['property'])")
-  res=$(./tools_seeded.sh run $d $prop quick 2>&1)
-  rc=$(echo "$res" | grep -o "exit=[0-9]*" | tail -1 | cut -d= -f2)
-  keys=$(echo "$res" | grep "^violation" | sed -E 's/.*key=([^ ]*) .*/\1/' | sort -u | head -5 | tr '\n' ' ')
-  [ $first = 0 ] && echo ',' >> $out.tmp; first=0
-  printf '{"id":"%s","property":"%s","check_exit":%s,"caught":%s,"violation_keys":"%s"}' "$id" "$prop" "${rc:-2}" "$([ "${rc:-2}" = 1 ] && echo true || echo false)" "$keys" >> $out.tmp
-  echo "$id $prop exit=${rc:-?} $keys"
+LANES=${LANES:-4}
+S=/tmp/seedlane
+[ -n "$(git -C /repo status --porcelain --untracked-files=no)" ] && { echo "/repo not clean"; exit 2; }
+rm -rf $S; mkdir -p $S
+ls -d seeded/*/ | sed 's|/$||' > $S/all.txt
+for k in $(seq 1 $LANES); do
+  git -C /repo worktree add -q --detach $S/r$k HEAD || exit 2
+  rsync -a --exclude .cache --exclude replays --exclude evidence /verif/ $S/v$k/
+  mkdir -p $S/v$k/evidence
+  awk -v k=$k -v n=$LANES 'NR%n==k%n' $S/all.txt > $S/list$k.txt
+  (
+    export SEEDED_REPO=$S/r$k SEEDED_VERIF=$S/v$k SEEDED_NO_RESTORE=1
+    while read d; do
+      id=$(basename $d); prop=$(python3 -c "import json;print(json.load(open('/verif/$d/meta.json'))['property'])")
+      res=$(/verif/tools_seeded.sh run /verif/$d $prop quick 2>&1)
+      rc=$(echo "$res" | grep -o "exit=[0-9]*" | tail -1 | cut -d= -f2)
+      keys=$(echo "$res" | grep "^violation" | sed -E 's/.*key=([^ ]*) .*/\1/' | sort -u | head -5 | tr '\n' ' ')
+      printf '{"id":"%s","property":"%s","check_exit":%s,"caught":%s,"violation_keys":"%s"}\n' "$id" "$prop" "${rc:-2}" "$([ "${rc:-2}" = 1 ] && echo true || echo false)" "$keys" >> $S/out$k.jsonl
+      echo "$id $prop exit=${rc:-?} $keys"
+    done < $S/list$k.txt
+  ) &
 done
-echo '], "note": "each seeded change applied to /repo (git apply), ./check <property> quick run, /repo restored (git checkout -- .)"}' >> $out.tmp
-python3 -c "import json;json.load(open('$out.tmp'))" && mv $out.tmp $out
-git -C /repo status --short
+wait
+python3 - <<PY
+import json,glob
+rows=[]
+for f in glob.glob('$S/out*.jsonl'):
+    rows+= [json.loads(l) for l in open(f) if l.strip()]
+rows.sort(key=lambda r:r['id'])
+json.dump({"seeded_changes":rows,"caught":sum(r['caught'] for r in rows),"total":len(rows),
+ "note":"each seeded change applied (git apply) to a scratch worktree of /repo's HEAD, ./check <property> quick run against it with a private copy of /verif, worktree restored (git checkout -- .)"},
+ open('/verif/evidence/sensitivity.json','w'),indent=1)
+print(sum(r['caught'] for r in rows),'of',len(rows),'caught; not caught:',[r['id'] for r in rows if not r['caught']])
+PY
+for k in $(seq 1 $LANES); do git -C /repo worktree remove --force $S/r$k; done
+git -C /repo worktree prune
+rm -rf $S
